@@ -40,12 +40,20 @@ def rule_e_loop_exit(ctx, cfg='prod-all'):
     exit edge of a condition that compares e with 2^(le-1), with 2^le and gcd(e, phi) with 1; e comes from random_prime(le)."""
     prog, eng, ga = ctx.prog(cfg), ctx.eng(cfg), ctx.gates(cfg)
     for suffix in (SIGI + 'sign', SIGI + 'sign_multiattr', BSI + 'blind_sign'):
-        b = resolve_fn(prog, suffix)
+        entry = resolve_fn(prog, suffix)
+        efd = eng.fndep(entry.path)
+        # the body (this function, or a helper of the module it calls) that holds the search loop and computes the inverse of e
+        b = None
+        for fr in walk(eng, entry.path, include_closures=False):
+            if fr.path != entry.path and not fr.path.startswith(('cl03::signature::', 'cl03::blind::')):
+                continue
+            if any((t.get('callee') or '').endswith(('invert_ref', '::invert')) for bi, t in fr.body.calls()):
+                b = fr.body
+                break
+        if b is None:
+            raise AnchorMissing('invert call in %s (or a helper of its module)' % entry.path)
         fd = eng.fndep(b.path)
-        # the block that computes the inverse of e (first use after the loop)
         inv = [bi for bi, t in b.calls() if (t.get('callee') or '').endswith('invert_ref') or (t.get('callee') or '').endswith('::invert')]
-        if not inv:
-            raise AnchorMissing('invert call in %s' % b.path)
         tgt = inv[0]
         loops = b.natural_loops()
         # exit conditions: switches inside a loop that contains a random_prime call, having an edge that leaves the loop towards tgt
@@ -77,15 +85,15 @@ def rule_e_loop_exit(ctx, cfg='prod-all'):
                         found['gcd'] = True
         # provenance of e at the signature aggregate
         e_ok = False
-        for bi, s in b.stmts():
+        for bi, s in entry.stmts():
             if s['k'] == 'assign' and s['rv']['k'] == 'agg' and s['rv']['ak'] == 'adt' and 'e' in s['rv'].get('fields', []):
                 i = s['rv']['fields'].index('e')
-                at = fd.read_op(s['rv']['ops'][i])
+                at = efd.read_op(s['rv']['ops'][i])
                 e_ok = any(a[0] == 'o' and a[1].endswith('thread_rng') for a in at) and any(a[0] == 'a' and a[1].endswith('::le') for a in at)
         ok = prime_in_loop and all(found.values()) and e_ok
-        yield Ob('RF-Q', '%s#e-loop-exit' % b.path, ok,
+        yield Ob('RF-Q', '%s#e-loop-exit' % entry.path, ok,
                  'the issued exponent leaves the generate-and-test loop only when 2^(le-1) < e < 2^le and gcd(e, phi(N)) == 1, and comes from random_prime(le)',
-                 b.span, fact={'loop_with_random_prime': prime_in_loop, 'exit_tests': found, 'e_from_random_prime_le': e_ok}, expected='all true')
+                 entry.span, fact={'loop_in': b.path.split('::')[-1], 'loop_with_random_prime': prime_in_loop, 'exit_tests': found, 'e_from_random_prime_le': e_ok}, expected='all true')
 
 
 # ---------------------------------------------------------------------------------- C14
@@ -675,6 +683,26 @@ def rule_mask_vectors(ctx, cfg='prod-all'):
                 oc = origin_call(zf, x['rv']['op']['pl']['l'])
                 creators.append((oc.get('callee') if oc else '?') or '?')
         fresh_vec = len(creators) == 1 and creators[0].endswith(('Vec::<T>::new', 'Vec::<T>::with_capacity'))
+        # iterator form: `positions.iter().map(|_| random_bits(n)).collect()` - the closure is evaluated once per element and its value is a
+        # random_bits call made inside it
+        mapped = None
+        if len(creators) == 1 and creators[0] == 'std::iter::Iterator::collect':
+            from rf_bits import origin_call
+            oc = origin_call(zf, root)
+            mc = origin_call(zf, oc['args'][0]['pl']['l']) if oc is not None and oc['args'] and oc['args'][0]['k'] in ('copy', 'move') else None
+            if mc is not None and (mc.get('callee') or '') == 'std::iter::Iterator::map' and len(mc['args']) == 2 and mc['args'][1]['k'] in ('copy', 'move'):
+                ci = fd._closure_info(mc['args'][1]['pl']['l'])
+                if ci is not None:
+                    czf = za.zf(ci[0])
+                    rc = origin_call(czf, 0)
+                    mapped = {'closure': ci[0].split('::')[-1], 'element_is_result_of': (local_target(eng, rc) or rc.get('callee') or '?') if rc is not None else None}
+                    mapped['ok'] = rc is not None and (local_target(eng, rc) or '').endswith('random_bits')
+        if mapped is not None:
+            yield Ob('RF-G2', '%s#%s:created-empty' % (fn, vec), True, 'the mask vector is collected from an iterator (one closure evaluation per element)', b.span,
+                     fact=creators, expected='Vec::new() or collect()')
+            yield Ob('RF-G2', '%s#%s:draw-per-element' % (fn, vec), bool(mapped['ok']), 'each random mask is drawn by a random_bits call inside the mapped closure', b.span,
+                     fact=mapped, expected='random_bits inside the closure')
+            continue
         yield Ob('RF-G2', '%s#%s:created-empty' % (fn, vec), fresh_vec, 'the mask vector starts empty and is filled element by element (vec![x; n] would repeat one draw)', b.span,
                  fact=creators, expected='Vec::new()')
         pushes = [(bi, t) for bi, t in b.calls() if (t.get('callee') or '') == 'std::vec::Vec::<T, A>::push' and t['args'][0]['k'] in ('copy', 'move')
